@@ -118,6 +118,8 @@ def rand_style(rng):
 
 
 def rand_css_key(rng):
+    if gen.EXTRA and rng.random() < 0.25:      # change-directed: a new source literal, spelled the ways a css() keyword can spell it
+        return rng.choice(gen.spellings(rng.choice(gen.EXTRA)))
     r = rng.random()
     if r < 0.5:
         return rng.choice(CSS_KEYS + ["backgroundColor", "margin_top", "MozBoxSizing", "a__b", "ABC", "x9", "σΣ", "ǅ", "ẞ"])
